@@ -2,6 +2,7 @@
 // PseudoURL::params in /repo, so this unit keeps examples that must be recognised on every run.
 // Parsed with -fsyntax-only, never linked or run.
 #include <algorithm>
+#include <cstdio>
 #include <string>
 #include <utility>
 #include <vector>
@@ -39,5 +40,49 @@ namespace rkverif {
         return false;
       }
     };
+
+    // ---- positive example for R-C18-10: a mantissa printed as <integer>.<integer>
+    // must be reported: (s % unit + tenth / 2) / tenth reaches 10
+    inline std::string scaledLossy(size_t s, size_t unit, char suffix)
+    {
+      const size_t tenth = unit / 10;
+      const size_t whole = s / unit;
+      const size_t frac  = (s % unit + tenth / 2) / tenth;
+      char result[100];
+      snprintf(result, 100, "%zu.%zu%c", whole, frac, suffix);
+      return result;
+    }
+
+    inline std::string prettyLossy(size_t s)
+    {
+      if (s >= 1000000ull)
+        return scaledLossy(s, 1000000ull, 'M');
+      else if (s >= 1000ull)
+        return scaledLossy(s, 1000ull, 'k');
+      char result[100];
+      snprintf(result, 100, "%zu", s);
+      return result;
+    }
+
+    // accepted: rounding is applied before the split, the fraction is a remainder modulo 10
+    inline std::string scaledCarry(size_t s, size_t unit, char suffix)
+    {
+      const size_t tenth   = unit / 10;
+      const size_t rounded = (s + tenth / 2) / tenth;
+      char result[100];
+      snprintf(result, 100, "%zu.%zu%c", rounded / 10, rounded % 10, suffix);
+      return result;
+    }
+
+    inline std::string prettyCarry(size_t s)
+    {
+      if (s >= 1000000ull)
+        return scaledCarry(s, 1000000ull, 'M');
+      else if (s >= 1000ull)
+        return scaledCarry(s, 1000ull, 'k');
+      char result[100];
+      snprintf(result, 100, "%zu", s);
+      return result;
+    }
   }  // namespace c18w
 }  // namespace rkverif
